@@ -71,14 +71,48 @@ type Loc struct {
 	Global *ssa.Global
 }
 
-func (x *Exec) heapName(elemSort Sort) string { return "heap_" + elemSort.Mangle() }
+// Heaps are keyed by the Go element type (so that []row and [][]byte, or
+// *Byte and []byte, never alias in the model: Go's type system keeps them
+// apart unless unsafe or pointer conversions between named element types are
+// used, which is a listed assumption). A Sort key is accepted for the
+// untyped library models (bytes, interface values).
+func (x *Exec) hkey(k any) (string, Sort) {
+	switch v := k.(type) {
+	case Sort:
+		switch v {
+		case SBV8:
+			return "heap_uint8", SBV8
+		case SIface:
+			return "heap_any", SIface
+		}
+		return "heap_sort_" + v.Mangle(), v
+	case types.Type:
+		v = types.Unalias(v)
+		if b, ok := v.(*types.Basic); ok && (b.Kind() == types.Uint8 || b.Kind() == types.Byte) {
+			return "heap_uint8", SBV8
+		}
+		if it, ok := v.(*types.Interface); ok && it.NumMethods() == 0 {
+			return "heap_any", SIface
+		}
+		var key string
+		if n, ok := v.(*types.Named); ok {
+			key = typeKey(n)
+		} else {
+			key = types.TypeString(v, func(p *types.Package) string { return p.Name() })
+		}
+		return "heap_" + mangleIdent(key), x.sortOf(v)
+	}
+	panic("hkey")
+}
+
+func (x *Exec) heapName(k any) string { n, _ := x.hkey(k); return n }
 
 func heapSort(elemSort Sort) Sort { return ArraySort(SInt, ArraySort(SBV64, elemSort)) }
 
 // heap returns the current heap array for an element sort, creating the
 // initial symbolic heap on first use.
-func (x *Exec) heap(st *State, elemSort Sort) Term {
-	name := x.heapName(elemSort)
+func (x *Exec) heap(st *State, k any) Term {
+	name, elemSort := x.hkey(k)
 	if h, ok := st.heaps[name]; ok {
 		return h
 	}
@@ -98,19 +132,19 @@ func sortedHeapNames(m map[string]Sort) []string {
 	return ks
 }
 
-func (x *Exec) setHeap(st *State, elemSort Sort, h Term) {
-	name := x.heapName(elemSort)
+func (x *Exec) setHeap(st *State, k any, h Term) {
+	name, elemSort := x.hkey(k)
 	x.heapSorts[name] = heapSort(elemSort)
 	st.heaps[name] = x.sc.Define(name, h)
 }
 
-func (x *Exec) heapRead(st *State, elemSort Sort, base, idx Term) Term {
-	return Select(Select(x.heap(st, elemSort), base), idx)
+func (x *Exec) heapRead(st *State, k any, base, idx Term) Term {
+	return Select(Select(x.heap(st, k), base), idx)
 }
 
-func (x *Exec) heapWrite(st *State, elemSort Sort, base, idx, v Term) {
-	h := x.heap(st, elemSort)
-	x.setHeap(st, elemSort, Store(h, base, Store(Select(h, base), idx, v)))
+func (x *Exec) heapWrite(st *State, k any, base, idx, v Term) {
+	h := x.heap(st, k)
+	x.setHeap(st, k, Store(h, base, Store(Select(h, base), idx, v)))
 }
 
 func (x *Exec) load(st *State, l *Loc) Term {
@@ -125,7 +159,7 @@ func (x *Exec) load(st *State, l *Loc) Term {
 		}
 		return v
 	case LElem:
-		return x.heapRead(st, x.sortOf(l.T), l.Base, l.Idx)
+		return x.heapRead(st, l.T, l.Base, l.Idx)
 	case LField:
 		pv := x.load(st, l.Parent)
 		return x.fieldGet(pv, l.Parent.T, l.Field)
@@ -141,7 +175,7 @@ func (x *Exec) store(st *State, l *Loc, v Term) {
 	case LCell:
 		st.cells[l.Cell] = x.sc.Define("cell_"+l.Cell.id, v)
 	case LElem:
-		x.heapWrite(st, x.sortOf(l.T), l.Base, l.Idx, v)
+		x.heapWrite(st, l.T, l.Base, l.Idx, v)
 	case LField:
 		pv := x.load(st, l.Parent)
 		x.store(st, l.Parent, x.fieldSet(pv, l.Parent.T, l.Field, v))
